@@ -5,11 +5,13 @@ use std::io::{self, BufRead, Write};
 
 mod driver;
 mod exec;
+mod imemregs;
 mod kbd;
 mod tables;
 mod lcd;
 mod mem;
 mod regs;
+mod romload;
 mod rt;
 mod timer;
 
@@ -22,6 +24,8 @@ pub struct Ctx {
     pub exec: exec::ExecCtx,
     pub kbd: kbd::KbdCtx,
     pub mem: mem::MemCtx,
+    pub rom: romload::RomCtx,
+    pub imem: imemregs::ImemCtx,
 }
 
 fn dispatch(ctx: &mut Ctx, req: &Value) -> Result<Value, String> {
@@ -37,6 +41,8 @@ fn dispatch(ctx: &mut Ctx, req: &Value) -> Result<Value, String> {
         c if c.starts_with("tables.") => tables::handle(c, req),
         c if c.starts_with("kbd.") => kbd::handle(&mut ctx.kbd, c, req),
         c if c.starts_with("mem.") => mem::handle(&mut ctx.mem, c, req),
+        c if c.starts_with("rom.") => romload::handle(&mut ctx.rom, c, req),
+        c if c.starts_with("imem.") => imemregs::handle(&mut ctx.imem, c, req),
         _ => Err(format!("unknown cmd {cmd}")),
     }
 }
@@ -45,7 +51,7 @@ fn main() {
     let stdin = io::stdin();
     let stdout = io::stdout();
     let mut out = io::BufWriter::new(stdout.lock());
-    let mut ctx = Ctx { regs: regs::RegsCtx::default(), timer: timer::TimerCtx::default(), rt: rt::RtCtx::default(), driver: driver::DriverCtx::default(), lcd: lcd::LcdCtx::default(), exec: exec::ExecCtx::default(), kbd: kbd::KbdCtx::default(), mem: mem::MemCtx::default() };
+    let mut ctx = Ctx { regs: regs::RegsCtx::default(), timer: timer::TimerCtx::default(), rt: rt::RtCtx::default(), driver: driver::DriverCtx::default(), lcd: lcd::LcdCtx::default(), exec: exec::ExecCtx::default(), kbd: kbd::KbdCtx::default(), mem: mem::MemCtx::default(), rom: romload::RomCtx::default(), imem: imemregs::ImemCtx::default() };
     for line in stdin.lock().lines() {
         let line = match line {
             Ok(l) => l,
